@@ -3,9 +3,13 @@
 //! (translation validation against the library that is wrapped; ICU4X is the oracle).
 //!
 //! mode `rt` (no input).  Output lines (strings as code points):
+//!   `P <kind> <n>` / `N <value id> <Debug of the numeric input>`   sizes of the value pools, the numeric pool
 //!   `K <key> <text> <fmt>`                      key of the declare_locales! module, its source text, parser's Formatter
-//!   `T <key> <locale> <value id> <flavour> <out>` flavour s = td_string!, d = td_display!, h = td!(..).to_html()
-//!   `I <key> <locale> <value id> <out>`          direct ICU4X call with the parser's options
+//!   `T <key> <locale> <value id> <flavour> <out>` flavour s = td_string!, d = td_display!, h = td!(..).to_html(),
+//!                                               S = td_string! fed a DateTime (date and time keys), V = td_string! fed a Vec<String> (list keys);
+//!                                               numeric keys are fed the Rust value of its own type (u8 .. i128, f32, f64, FixedDecimal)
+//!   `I <key> <locale> <value id> <out>`          direct ICU4X call with the parser's options; numbers are converted the documented
+//!                                               way (`From` for integers, `try_from_f64(v, FloatPrecision::Floating)` for floats)
 //!   `F <tokens> <locale> <value id> <flavour> <out>`   td_format_string! (s) / td_format_display! (d), <tokens> = stringify!(formatter tokens)
 //!   `A <key> <locale> <value id> <flavour> <out>`  like T, but executed after the keys whose options ICU4X refuses (time zone lengths)
 //! mode `ops <seq|par>`: stdin lines `<fmt> <locale> <value id>`; the operations are executed through
@@ -15,7 +19,8 @@
 //! <out> is `PANIC` when the call panicked.
 use crate::m_parse::{cps, pfmt};
 use leptos::prelude::*;
-use leptos_i18n::reexports::fixed_decimal::FixedDecimal;
+use leptos_i18n::reexports::fixed_decimal::{FixedDecimal, FloatPrecision};
+use leptos_i18n::formatting::IntoFixedDecimal;
 use leptos_i18n::reexports::icu::calendar::{AnyCalendar, Date, DateTime, Time};
 use leptos_i18n::reexports::icu::currency::formatter::{CurrencyCode, CurrencyFormatter};
 use leptos_i18n::reexports::icu::currency::options::{CurrencyFormatterOptions, Width};
@@ -67,14 +72,14 @@ macro_rules! all_keys {
         /// keys whose options need a time zone: ICU4X refuses to build their formatter
         pub const TZ_KEYS: &[(&str, &str)] = &[ $((stringify!($ztk), $ztv),)* $((stringify!($zxk), $zxv),)* ];
 
-        fn keys_time_tz(loc: Locale, t: (u8, u8, u8), emit: &mut dyn FnMut(&str, char, String)) {
+        fn keys_time_tz(loc: Locale, t: Tm, emit: &mut dyn FnMut(&str, char, String)) {
             $(
                 emit(stringify!($ztk), 's', guard(|| td_string!(loc, $ztk, v = time(t)).to_string()));
                 emit(stringify!($ztk), 'd', guard(|| td_display!(loc, $ztk, v = time(t)).to_string()));
                 emit(stringify!($ztk), 'h', guard(|| html(td!(loc, $ztk, v = move || time(t)))));
             )*
         }
-        fn keys_datetime_tz(loc: Locale, d: (i32, u8, u8), t: (u8, u8, u8), emit: &mut dyn FnMut(&str, char, String)) {
+        fn keys_datetime_tz(loc: Locale, d: (i32, u8, u8), t: Tm, emit: &mut dyn FnMut(&str, char, String)) {
             $(
                 emit(stringify!($zxk), 's', guard(|| td_string!(loc, $zxk, v = datetime(d, t)).to_string()));
                 emit(stringify!($zxk), 'd', guard(|| td_display!(loc, $zxk, v = datetime(d, t)).to_string()));
@@ -82,16 +87,16 @@ macro_rules! all_keys {
             )*
         }
 
-        fn keys_num(loc: Locale, m: i64, p: i16, emit: &mut dyn FnMut(&str, char, String)) {
+        fn keys_num<T: IntoFixedDecimal + Send + Sync + 'static>(loc: Locale, v: T, emit: &mut dyn FnMut(&str, char, String)) {
             $(
-                emit(stringify!($nk), 's', guard(|| td_string!(loc, $nk, v = dec(m, p)).to_string()));
-                emit(stringify!($nk), 'd', guard(|| td_display!(loc, $nk, v = dec(m, p)).to_string()));
-                emit(stringify!($nk), 'h', guard(|| html(td!(loc, $nk, v = move || dec(m, p)))));
+                emit(stringify!($nk), 's', guard(|| td_string!(loc, $nk, v = v.clone()).to_string()));
+                emit(stringify!($nk), 'd', guard(|| td_display!(loc, $nk, v = v.clone()).to_string()));
+                emit(stringify!($nk), 'h', guard(|| { let w = v.clone(); html(td!(loc, $nk, v = move || w.clone())) }));
             )*
             $(
-                emit(stringify!($ck), 's', guard(|| td_string!(loc, $ck, v = dec(m, p)).to_string()));
-                emit(stringify!($ck), 'd', guard(|| td_display!(loc, $ck, v = dec(m, p)).to_string()));
-                emit(stringify!($ck), 'h', guard(|| html(td!(loc, $ck, v = move || dec(m, p)))));
+                emit(stringify!($ck), 's', guard(|| td_string!(loc, $ck, v = v.clone()).to_string()));
+                emit(stringify!($ck), 'd', guard(|| td_display!(loc, $ck, v = v.clone()).to_string()));
+                emit(stringify!($ck), 'h', guard(|| { let w = v.clone(); html(td!(loc, $ck, v = move || w.clone())) }));
             )*
         }
         fn keys_date(loc: Locale, d: (i32, u8, u8), emit: &mut dyn FnMut(&str, char, String)) {
@@ -99,16 +104,18 @@ macro_rules! all_keys {
                 emit(stringify!($dk), 's', guard(|| td_string!(loc, $dk, v = date(d)).to_string()));
                 emit(stringify!($dk), 'd', guard(|| td_display!(loc, $dk, v = date(d)).to_string()));
                 emit(stringify!($dk), 'h', guard(|| html(td!(loc, $dk, v = move || date(d)))));
+                emit(stringify!($dk), 'S', guard(|| td_string!(loc, $dk, v = datetime(d, TIMES[0])).to_string()));
             )*
         }
-        fn keys_time(loc: Locale, t: (u8, u8, u8), emit: &mut dyn FnMut(&str, char, String)) {
+        fn keys_time(loc: Locale, t: Tm, emit: &mut dyn FnMut(&str, char, String)) {
             $(
                 emit(stringify!($tk), 's', guard(|| td_string!(loc, $tk, v = time(t)).to_string()));
                 emit(stringify!($tk), 'd', guard(|| td_display!(loc, $tk, v = time(t)).to_string()));
                 emit(stringify!($tk), 'h', guard(|| html(td!(loc, $tk, v = move || time(t)))));
+                emit(stringify!($tk), 'S', guard(|| td_string!(loc, $tk, v = datetime(DATES[0], t)).to_string()));
             )*
         }
-        fn keys_datetime(loc: Locale, d: (i32, u8, u8), t: (u8, u8, u8), emit: &mut dyn FnMut(&str, char, String)) {
+        fn keys_datetime(loc: Locale, d: (i32, u8, u8), t: Tm, emit: &mut dyn FnMut(&str, char, String)) {
             $(
                 emit(stringify!($xk), 's', guard(|| td_string!(loc, $xk, v = datetime(d, t)).to_string()));
                 emit(stringify!($xk), 'd', guard(|| td_display!(loc, $xk, v = datetime(d, t)).to_string()));
@@ -120,6 +127,7 @@ macro_rules! all_keys {
                 emit(stringify!($lk), 's', guard(|| td_string!(loc, $lk, v = l.to_vec()).to_string()));
                 emit(stringify!($lk), 'd', guard(|| td_display!(loc, $lk, v = l.to_vec()).to_string()));
                 emit(stringify!($lk), 'h', guard(|| html(td!(loc, $lk, v = move || l.to_vec()))));
+                emit(stringify!($lk), 'V', guard(|| td_string!(loc, $lk, v = l.iter().map(|x| x.to_string()).collect::<Vec<String>>()).to_string()));
             )*
         }
     };
@@ -209,10 +217,119 @@ all_keys! {
 }
 
 pub const LOCALES: &[(&str, Locale)] = &[("en", Locale::en), ("fr", Locale::fr), ("ar", Locale::ar), ("ja", Locale::ja)];
-pub const NUMS: &[(i64, i16)] = &[(0, 0), (7, 0), (999, 0), (1000, 0), (9999, 0), (10000, 0), (1234567891, -3), (-9876543210, 0), (5, -1), (12345, -2)];
-pub const DATES: &[(i32, u8, u8)] = &[(1970, 1, 2), (2024, 2, 29), (1999, 12, 31), (2025, 7, 4)];
-pub const TIMES: &[(u8, u8, u8)] = &[(14, 34, 28), (0, 0, 0), (9, 5, 7), (23, 59, 59)];
-pub const LISTS: &[&[&str]] = &[&[], &["A"], &["A", "B"], &["A", "B", "C"], &["un", "deux", "trois", "quatre"], &["\u{645}", "\u{65e5}\u{672c}", "x y"]];
+/// (hour, minute, second, nanosecond)
+pub type Tm = (u8, u8, u8, u32);
+
+/// a numeric input of every type `IntoFixedDecimal` is implemented for
+#[derive(Clone, Copy, Debug)]
+pub enum Num {
+    Dec(i64, i16),
+    U8(u8),
+    U16(u16),
+    U32(u32),
+    U64(u64),
+    U128(u128),
+    Usize(usize),
+    I8(i8),
+    I16(i16),
+    I32(i32),
+    I64(i64),
+    I128(i128),
+    Isize(isize),
+    F32(f32),
+    F64(f64),
+}
+
+/// run `$body` with `$v` bound to the Rust value of its own type
+macro_rules! with_num {
+    ($n:expr, |$v:ident| $body:expr) => {
+        match $n {
+            Num::Dec(m, p) => { let $v = dec(m, p); $body }
+            Num::U8($v) => $body,
+            Num::U16($v) => $body,
+            Num::U32($v) => $body,
+            Num::U64($v) => $body,
+            Num::U128($v) => $body,
+            Num::Usize($v) => $body,
+            Num::I8($v) => $body,
+            Num::I16($v) => $body,
+            Num::I32($v) => $body,
+            Num::I64($v) => $body,
+            Num::I128($v) => $body,
+            Num::Isize($v) => $body,
+            Num::F32($v) => $body,
+            Num::F64($v) => $body,
+        }
+    };
+}
+
+/// the documented conversion (book, "Number"): `From` for the integer types,
+/// `FixedDecimal::try_from_f64(v, FloatPrecision::Floating)` for f32 (widened) and f64
+pub fn documented_decimal(n: Num) -> FixedDecimal {
+    match n {
+        Num::Dec(m, p) => dec(m, p),
+        Num::U8(v) => FixedDecimal::from(v),
+        Num::U16(v) => FixedDecimal::from(v),
+        Num::U32(v) => FixedDecimal::from(v),
+        Num::U64(v) => FixedDecimal::from(v),
+        Num::U128(v) => FixedDecimal::from(v),
+        Num::Usize(v) => FixedDecimal::from(v),
+        Num::I8(v) => FixedDecimal::from(v),
+        Num::I16(v) => FixedDecimal::from(v),
+        Num::I32(v) => FixedDecimal::from(v),
+        Num::I64(v) => FixedDecimal::from(v),
+        Num::I128(v) => FixedDecimal::from(v),
+        Num::Isize(v) => FixedDecimal::from(v),
+        Num::F32(v) => FixedDecimal::try_from_f64(f64::from(v), FloatPrecision::Floating).unwrap(),
+        Num::F64(v) => FixedDecimal::try_from_f64(v, FloatPrecision::Floating).unwrap(),
+    }
+}
+
+const P53: f64 = 9007199254740992.0; // 2^53
+pub const NUMS: &[Num] = &[
+    // (the first ten are referred to by index elsewhere)
+    Num::Dec(0, 0), Num::Dec(7, 0), Num::Dec(999, 0), Num::Dec(1000, 0), Num::Dec(9999, 0), Num::Dec(10000, 0),
+    Num::Dec(1234567891, -3), Num::Dec(-9876543210, 0), Num::Dec(5, -1), Num::Dec(12345, -2),
+    Num::Dec(i64::MAX, 0), Num::Dec(i64::MIN, 0), Num::Dec(1, -18), Num::Dec(-1, 12), Num::Dec(123456789, -9),
+    // every integer width at MIN / MAX / 0 / +-1 and around the grouping boundaries
+    Num::U8(0), Num::U8(1), Num::U8(u8::MAX),
+    Num::U16(0), Num::U16(1), Num::U16(1000), Num::U16(9999), Num::U16(10000), Num::U16(u16::MAX),
+    Num::U32(0), Num::U32(1), Num::U32(999), Num::U32(100000), Num::U32(u32::MAX),
+    Num::U64(0), Num::U64(1), Num::U64(1 << 53), Num::U64((1 << 53) + 1), Num::U64(u64::MAX),
+    Num::U128(0), Num::U128(1), Num::U128(u64::MAX as u128 + 1), Num::U128(u128::MAX),
+    Num::Usize(0), Num::Usize(1), Num::Usize(usize::MAX),
+    Num::I8(i8::MIN), Num::I8(-1), Num::I8(0), Num::I8(1), Num::I8(i8::MAX),
+    Num::I16(i16::MIN), Num::I16(-1), Num::I16(0), Num::I16(1), Num::I16(-1000), Num::I16(i16::MAX),
+    Num::I32(i32::MIN), Num::I32(-1), Num::I32(0), Num::I32(1), Num::I32(-9999), Num::I32(-10000), Num::I32(i32::MAX),
+    Num::I64(i64::MIN), Num::I64(-1), Num::I64(0), Num::I64(1), Num::I64(-(1 << 53) - 1), Num::I64(i64::MAX),
+    Num::I128(i128::MIN), Num::I128(-1), Num::I128(0), Num::I128(1), Num::I128(i64::MIN as i128 - 1), Num::I128(i128::MAX),
+    Num::Isize(isize::MIN), Num::Isize(-1), Num::Isize(0), Num::Isize(1), Num::Isize(isize::MAX),
+    // f32: signed zeros, subnormals, 2^24 +- 1, shortest-digit cases, extremes
+    Num::F32(0.0), Num::F32(-0.0), Num::F32(1.0), Num::F32(-1.0), Num::F32(f32::from_bits(1)), Num::F32(f32::MIN_POSITIVE),
+    Num::F32(16777215.0), Num::F32(16777216.0), Num::F32(16777218.0), Num::F32(-16777216.0), Num::F32(0.1), Num::F32(0.1 + 0.2),
+    Num::F32(1e-7), Num::F32(123456.79), Num::F32(1000.5), Num::F32(3.0e9), Num::F32(1e21), Num::F32(f32::MAX), Num::F32(f32::MIN),
+    // f64: signed zeros, subnormals, 2^53 +- 1, whole floats between 2^53 and 2^63, powers of ten, many fraction digits
+    Num::F64(0.0), Num::F64(-0.0), Num::F64(1.0), Num::F64(-1.0), Num::F64(7.0), Num::F64(1000.0), Num::F64(-10000.0), Num::F64(100000.0),
+    Num::F64(5e-324), Num::F64(f64::MIN_POSITIVE), Num::F64(2.2250738585072009e-308),
+    Num::F64(P53 - 1.0), Num::F64(P53), Num::F64(P53 + 2.0), Num::F64(-P53 - 2.0), Num::F64(P53 * 2.0 + 4.0),
+    Num::F64(1.2345678901234567e18), Num::F64(-1.2345678901234567e18), Num::F64(4.611686018427388e18), Num::F64(9.223372036854775e18),
+    Num::F64(9.223372036854776e18), Num::F64(-9.223372036854776e18), Num::F64(1.8446744073709552e19),
+    Num::F64(1e15), Num::F64(1e16), Num::F64(1e17), Num::F64(1e18), Num::F64(1e19), Num::F64(1e21), Num::F64(1e22), Num::F64(1e23), Num::F64(-1e21),
+    Num::F64(0.1 + 0.2), Num::F64(0.1), Num::F64(1e-7), Num::F64(-1e-7), Num::F64(0.000001234), Num::F64(123456789.12345679),
+    Num::F64(1e15 + 0.3), Num::F64(-123.456), Num::F64(0.5), Num::F64(2.5), Num::F64(1.0 / 3.0), Num::F64(-1.5e300), Num::F64(1e-300),
+    Num::F64(f64::MAX), Num::F64(f64::MIN), Num::F64(4503599627370496.5), Num::F64(999999999999999.9),
+];
+pub const DATES: &[(i32, u8, u8)] = &[
+    (1970, 1, 2), (2024, 2, 29), (1999, 12, 31), (2025, 7, 4), (1970, 1, 1), (1969, 12, 31), (2000, 2, 29), (1900, 3, 1),
+    (1, 1, 1), (0, 12, 31), (-1, 6, 15), (9999, 12, 31), (2038, 1, 19), (1582, 10, 15),
+];
+pub const TIMES: &[Tm] = &[
+    (14, 34, 28, 0), (0, 0, 0, 0), (9, 5, 7, 0), (23, 59, 59, 0), (12, 0, 0, 0), (11, 59, 59, 999_999_999), (0, 0, 1, 1), (23, 59, 60, 0),
+];
+pub const LISTS: &[&[&str]] = &[
+    &[], &["A"], &["A", "B"], &["A", "B", "C"], &["un", "deux", "trois", "quatre"], &["\u{645}", "\u{65e5}\u{672c}", "x y"],
+    &[""], &["", ""], &["A", "", "B"], &["", "B", ""], &["a", "b", "c", "d", "e", "f"], &[" ", "A,B", "and"],
+];
 
 fn dec(m: i64, p: i16) -> FixedDecimal {
     FixedDecimal::from(m).multiplied_pow10(p)
@@ -220,10 +337,10 @@ fn dec(m: i64, p: i16) -> FixedDecimal {
 fn date(d: (i32, u8, u8)) -> Date<AnyCalendar> {
     Date::try_new_iso_date(d.0, d.1, d.2).unwrap().to_any()
 }
-fn time(t: (u8, u8, u8)) -> Time {
-    Time::try_new(t.0, t.1, t.2, 0).unwrap()
+fn time(t: Tm) -> Time {
+    Time::try_new(t.0, t.1, t.2, t.3).unwrap()
 }
-fn datetime(d: (i32, u8, u8), t: (u8, u8, u8)) -> DateTime<AnyCalendar> {
+fn datetime(d: (i32, u8, u8), t: Tm) -> DateTime<AnyCalendar> {
     DateTime::new(date(d), time(t))
 }
 
@@ -287,10 +404,10 @@ fn m_code(c: &pf::CurrencyCode) -> CurrencyCode {
 
 #[derive(Clone, Copy, Debug)]
 pub enum Val {
-    Num(i64, i16),
+    Num(Num),
     Date((i32, u8, u8)),
-    Time((u8, u8, u8)),
-    DateTime((i32, u8, u8), (u8, u8, u8)),
+    Time(Tm),
+    DateTime((i32, u8, u8), Tm),
     List(&'static [&'static str]),
 }
 
@@ -298,8 +415,7 @@ pub enum Val {
 pub fn value_for(f: &pf::Formatter, i: usize) -> Option<Val> {
     Some(match f {
         pf::Formatter::Number(_) | pf::Formatter::Currency(..) => {
-            let (m, p) = *NUMS.get(i)?;
-            Val::Num(m, p)
+            Val::Num(*NUMS.get(i)?)
         }
         pf::Formatter::Date(_) => Val::Date(*DATES.get(i)?),
         pf::Formatter::Time(_) => Val::Time(*TIMES.get(i)?),
@@ -314,15 +430,15 @@ pub fn icu_direct(f: &pf::Formatter, locale: &str, v: Val) -> String {
     let loc: IcuLocale = locale.parse().unwrap();
     let dl: DataLocale = (&loc).into();
     match (f, v) {
-        (pf::Formatter::Number(g), Val::Num(m, p)) => {
+        (pf::Formatter::Number(g), Val::Num(n)) => {
             let mut o = FixedDecimalFormatterOptions::default();
             o.grouping_strategy = m_g(*g);
-            FixedDecimalFormatter::try_new(&dl, o).unwrap().format_to_string(&dec(m, p))
+            FixedDecimalFormatter::try_new(&dl, o).unwrap().format_to_string(&documented_decimal(n))
         }
-        (pf::Formatter::Currency(w, c), Val::Num(m, p)) => {
+        (pf::Formatter::Currency(w, c), Val::Num(n)) => {
             let mut o = CurrencyFormatterOptions::default();
             o.width = m_w(*w);
-            CurrencyFormatter::try_new(&dl, o).unwrap().format_fixed_decimal(&dec(m, p), m_code(c)).write_to_string().into_owned()
+            CurrencyFormatter::try_new(&dl, o).unwrap().format_fixed_decimal(&documented_decimal(n), m_code(c)).write_to_string().into_owned()
         }
         (pf::Formatter::Date(l), Val::Date(d)) => {
             DateFormatter::try_new_with_length(&dl, m_dl(*l)).unwrap().format_to_string(&date(d)).unwrap()
@@ -350,8 +466,10 @@ pub fn icu_direct(f: &pf::Formatter, locale: &str, v: Val) -> String {
 pub fn lib_call(f: &pf::Formatter, loc: Locale, v: Val) -> String {
     use leptos_i18n::__private as p;
     match (f, v) {
-        (pf::Formatter::Number(g), Val::Num(m, e)) => p::format_number_to_display(loc, dec(m, e), m_g(*g)).to_string(),
-        (pf::Formatter::Currency(w, c), Val::Num(m, e)) => p::format_currency_to_display(loc, dec(m, e), m_w(*w), m_code(c)).to_string(),
+        (pf::Formatter::Number(g), Val::Num(n)) => with_num!(n, |v| p::format_number_to_display(loc, v, m_g(*g)).to_string()),
+        (pf::Formatter::Currency(w, c), Val::Num(n)) => {
+            with_num!(n, |v| p::format_currency_to_display(loc, v, m_w(*w), m_code(c)).to_string())
+        }
         (pf::Formatter::Date(l), Val::Date(d)) => p::format_date_to_display(loc, &date(d), m_dl(*l)).to_string(),
         (pf::Formatter::Time(l), Val::Time(t)) => p::format_time_to_display(loc, &time(t), m_tl(*l)).to_string(),
         (pf::Formatter::DateTime(a, b), Val::DateTime(d, t)) => {
@@ -401,14 +519,14 @@ macro_rules! fmt_calls {
 
 fn run_format_macros(o: &mut impl Write) {
     for (ln, loc) in LOCALES.iter().copied() {
-        for (vi, (m, p)) in NUMS.iter().copied().enumerate() {
-            fmt_calls!(o, ln, loc, vi, dec(m, p);
+        for (vi, n) in NUMS.iter().copied().enumerate() {
+            with_num!(n, |v| { fmt_calls!(o, ln, loc, vi, v.clone();
                 [number] [number()] [number(grouping_strategy: auto)] [number(grouping_strategy: never)]
                 [number(grouping_strategy: always)] [number(grouping_strategy: min2)]
                 [number ( grouping_strategy : never ; )] [number(grouping_strategy: sometimes; grouping_strategy: min2)]
                 [currency] [currency(width: short)] [currency(width: narrow)] [currency(currency_code: EUR)]
                 [currency(width: narrow; currency_code: EUR)] [currency(currency_code: JPY; width: short)]
-                [currency(width: narrow; currency_code: JPY)] [currency(width: wide; currency_code: USD)]);
+                [currency(width: narrow; currency_code: JPY)] [currency(width: wide; currency_code: USD)]); });
         }
         for (vi, d) in DATES.iter().copied().enumerate() {
             fmt_calls!(o, ln, loc, vi, &date(d);
@@ -445,6 +563,10 @@ fn run_format_macros(o: &mut impl Write) {
 pub fn run_rt() {
     let mut o = std::io::BufWriter::new(std::io::stdout().lock());
     let mut fmts = std::collections::HashMap::new();
+    writeln!(o, "P n {}\nP c {}\nP d {}\nP t {}\nP D {}\nP l {}", NUMS.len(), NUMS.len(), DATES.len(), TIMES.len(), DATES.len() * TIMES.len(), LISTS.len()).unwrap();
+    for (i, n) in NUMS.iter().enumerate() {
+        writeln!(o, "N {} {}", i, cps(&format!("{:?}", n))).unwrap();
+    }
     for (k, text) in KEYS.iter().chain(TZ_KEYS.iter()) {
         let f = formatter_of_text(text);
         writeln!(o, "K {} {} {}", k, cps(text), f.as_ref().map(pfmt).unwrap_or_else(|| "?".to_string())).unwrap();
@@ -461,8 +583,8 @@ pub fn run_rt() {
                 writeln!(o, "{}", l).unwrap();
             }
         };
-        for (vi, (m, p)) in NUMS.iter().copied().enumerate() {
-            run(vi, &|e| keys_num(loc, m, p, e));
+        for (vi, n) in NUMS.iter().copied().enumerate() {
+            with_num!(n, |v| run(vi, &|e| keys_num(loc, v.clone(), e)));
         }
         for (vi, d) in DATES.iter().copied().enumerate() {
             run(vi, &|e| keys_date(loc, d, e));
@@ -516,7 +638,7 @@ pub fn run_rt() {
     // and afterwards an ordinary call again: does the cache still work?
     for (ln, loc) in LOCALES.iter().copied() {
         let mut lines = vec![];
-        keys_num(loc, 7, 0, &mut |k: &str, fl: char, s: String| lines.push(format!("A {} {} 1 {} {}", k, ln, fl, cps(&s))));
+        keys_num(loc, dec(7, 0), &mut |k: &str, fl: char, s: String| lines.push(format!("A {} {} 1 {} {}", k, ln, fl, cps(&s))));
         for l in lines.into_iter().take(3) {
             writeln!(o, "{}", l).unwrap();
         }
